@@ -6,9 +6,20 @@
    repeated runs under a -race build and by hashing the repository before and
    after, i.e. by sampling. *)
 From Coq Require Import String.
-From GS Require Import GoSem Text Options Protocol ProtocolProofs.
+From GS Require Import GoSem Text Options Protocol ProtocolProofs CmdsBridge.
+From GSGen Require Import CmdsGen.
 
 Theorem C17_readonly_cmds : forall ngroups st roots i, In i (trace ngroups st roots) -> readonly_argv (i_argv i) = true.
 Proof. exact all_readonly. Qed.
 Print Assumptions C17_readonly_cmds.
 
+(* tie T: the same for the command lines as they stand in the Go sources (gen/CmdsGen.v, regenerated every run): every call
+   of GitCommand / exec.Command in the non-test code is read-only plumbing, whatever run-time values fill its holes, and there
+   are no commands beyond those of the protocol model *)
+Theorem C17_source_commands_read_only : forallb (fun c => readonly_argv (cmd_words c)) git_commands = true.
+Proof. exact commands_read_only. Qed.
+Print Assumptions C17_source_commands_read_only.
+
+Theorem C17_commands_are_the_protocol : covers = true.
+Proof. exact commands_are_the_protocol. Qed.
+Print Assumptions C17_commands_are_the_protocol.
